@@ -122,12 +122,13 @@ class _OptimizeShim:
     def _wrap(self, name, f):
         shim = self
         def g(func, *a, **k):
-            b = dict(optimizer='scipy.optimize.' + name, queries=[], values=[], out=None, stripped=[],
+            b = dict(optimizer='scipy.optimize.' + name, queries=[], values=[], out=None, stripped=[], kinds=set(),
                      x0=(None if name == 'brute' else np.array(a[0] if a else k.get('x0'), dtype=float).ravel().copy()),
                      bounds=k.get('bounds'), ranges=k.get('ranges'))
             shim._rec.append(b)
             def fw(x, *args):
                 v = func(x, *args)
+                b['kinds'].add(np_kind(x))          # the element type of the vector the objective is handed (a grid written with integers: int)
                 b['queries'].append(np.array(x, dtype=float).ravel().copy()); b['values'].append(float(v))
                 return v
             if shim._compat:
@@ -283,7 +284,7 @@ def frozen(o):
     """a comparable snapshot of a caller-owned object (types included: 0 vs 0.0 vs False vs numpy zeros)"""
     if isinstance(o, dict): return ('dict', tuple((k, frozen(v)) for k, v in sorted(o.items())))
     if isinstance(o, (list, tuple)): return (type(o).__name__, tuple(frozen(v) for v in o))
-    if isinstance(o, np.ndarray): return ('ndarray', o.shape, tuple(o.ravel().tolist()))
+    if isinstance(o, np.ndarray): return ('ndarray', str(o.dtype), o.shape, tuple(o.ravel().tolist()))
     return (type(o).__name__, repr(o))
 
 def default_objects(f):
@@ -293,6 +294,37 @@ def default_objects(f):
         if isinstance(prm.default, (list, dict, set, np.ndarray)):
             out[name] = prm.default
     return out
+
+# ----------------------------------------------------------------------------------------------- search grids
+# one axis of the grid of optimize_grid, as numpy.index_exp spells it: [start, stop, m] = `start:stop:mj` (m points, both ends included) or
+# [start, stop, step, 'step'] = `start:stop:step` (stop excluded); in the second form the three numbers keep their type (JSON keeps int and
+# float apart), and a grid whose axes are ALL written with integers reaches the objective as INTEGER arrays
+def grid_entry(e):
+    if len(e) == 4 and e[3] == 'step': return e[0], e[1], e[2], 'step'
+    return e[0], e[1], e[2], 'count'
+
+def grid_slices(spec):
+    sl = []
+    for e in spec['grid']:
+        a, b, c, kind = grid_entry(e)
+        sl.append(slice(a, b, complex(0, c)) if kind == 'count' else slice(a, b, c))
+    return list(sl) if spec.get('grid_container') == 'list' else tuple(sl)
+
+def grid_axis(e):
+    """the values the documentation promises for one axis (independent of numpy.mgrid)"""
+    a, b, c, kind = grid_entry(e)
+    if kind == 'count':
+        m = int(c)
+        return [float(a)] if m == 1 else [float(a) + i * (float(b) - float(a)) / (m - 1) for i in range(m)]
+    n = int(math.ceil((Fraction(b) - Fraction(a)) / Fraction(c)))
+    return [float(a + i * c) for i in range(max(n, 0))]
+
+def grid_is_int(spec):
+    return all(grid_entry(e)[3] == 'step' and all(isinstance(v, int) and not isinstance(v, bool) for v in e[:3]) for e in spec['grid'])
+
+def grid_kind(spec):
+    kinds = set('count' if grid_entry(e)[3] == 'count' else ('int' if all(isinstance(v, int) for v in e[:3]) else 'float_step') for e in spec['grid'])
+    return kinds.pop() if len(kinds) == 1 else 'mixed'
 
 def call_wrapper(dadi, pb, spec, owned=None):
     """the call a user would make; returns whatever the wrapper returns"""
@@ -307,7 +339,7 @@ def call_wrapper(dadi, pb, spec, owned=None):
     if 'func_args' in owned: kw['func_args'] = owned['func_args']
     if 'func_kwargs' in owned: kw['func_kwargs'] = owned['func_kwargs']
     if w == 'optimize_grid':
-        grid = tuple(slice(a, b, complex(0, m)) for (a, b, m) in spec['grid'])
+        grid = grid_slices(spec)
         kw['full_output'] = bool(spec['full_output'])
         return f(pb.data, pb.model_func, pts, grid, **kw)
     kw.update(lower_bound=lower, upper_bound=upper)
@@ -326,16 +358,32 @@ ZEROS = {'int0': lambda: 0, 'float0': lambda: 0.0, 'negzero': lambda: -0.0, 'fal
          'np0': lambda: np.float64(0.0), 'npint0': lambda: np.int64(0), 'np0d': lambda: np.array(0.0)}
 ZERO_TAGS = list(ZEROS)
 
+# A fixed value in another numeric type than a Python float: tag '<kind>:<value>' (integers for the integer kinds)
+FX_KINDS = {'int': lambda v: int(float(v)), 'npint': lambda v: np.int64(float(v)), 'npf': lambda v: np.float64(float(v)),
+            'np0d': lambda v: np.array(float(v)), 'f32': lambda v: np.float32(float(v))}
+
+def fx_entry_real(f):
+    if not isinstance(f, str): return f
+    if f in ZEROS: return ZEROS[f]()
+    kind, _, val = f.partition(':')
+    return FX_KINDS[kind](val)
+
+def fx_entry_num(f):
+    if f is None: return None
+    if not isinstance(f, str): return float(f)
+    if f in ZEROS: return 0.0
+    return float(fx_entry_real(f))
+
 def fx_real(fixed):
     """the fixed_params list as the caller passes it"""
-    return None if fixed is None else [ZEROS[f]() if isinstance(f, str) else f for f in fixed]
+    return None if fixed is None else [fx_entry_real(f) for f in fixed]
 
 def fx_num(fixed):
     """the fixed values as numbers (None = free)"""
-    return None if fixed is None else [None if f is None else (0.0 if isinstance(f, str) else float(f)) for f in fixed]
+    return None if fixed is None else [fx_entry_num(f) for f in fixed]
 
 def has_zero_fixed(fixed):
-    return fixed is not None and any(f is not None and (isinstance(f, str) or float(f) == 0.0) for f in fixed)
+    return fixed is not None and any(f is not None and fx_entry_num(f) == 0.0 for f in fixed)
 
 def start_full(spec):
     fixed = fx_num(spec['fixed'])
@@ -393,6 +441,13 @@ def run_optim(chk, ctx, spec, sample=True, report=None, keep_defaults=False):
             spec.get('ll_scale', 1) != 1, spec.get('algorithm'), bool(spec.get('full_output', True)), spec.get('maxiter') is None,
             has_zero_fixed(spec['fixed'])))
     if has_zero_fixed(spec['fixed']): chk.stat('optimiser_runs_with_a_parameter_fixed_at_zero')
+    ty = types_of(spec)
+    spelled = tuple(sorted((n, ('int' if 'int' in f else f)) for n, f in ty.items())) + tuple(sorted(set(
+        f.partition(':')[0] for f in (spec['fixed'] or []) if isinstance(f, str) and f not in ZEROS)))
+    chk.l3(('spelling', tn, spelled, bool(spec.get('tight')), grid_kind(spec) if w == 'optimize_grid' else None, nfix > 0))
+    for n, f in ty.items(): chk.stat('spelled:%s:%s' % (n, f))
+    if spec.get('tight'): chk.stat('tight_boxes')
+    if w == 'optimize_grid': chk.stat('grid_written_as:' + grid_kind(spec))
     for s in ('wrapper:' + tn, 'params:%d' % k, 'fixed:%d' % nfix, 'lower:' + bkind(spec.get('lower')), 'upper:' + bkind(spec.get('upper')),
               'multinom:%s' % bool(spec['multinom']), 'toy:' + spec['toy']['kind']):
         chk.stat(s)
@@ -462,7 +517,7 @@ def run_optim(chk, ctx, spec, sample=True, report=None, keep_defaults=False):
             bad('first_eval_is_start', 'the first model evaluation is at %r, the starting point is %r' % (calls[0] if calls else None, s0))
     # (2) every evaluation inside the bounds, with the fixed values
     if w == 'optimize_grid':
-        rng_lo = py_up([a for a, b, m in spec['grid']], fixed); rng_hi = py_up([b for a, b, m in spec['grid']], fixed)
+        rng_lo = py_up([e[0] for e in spec['grid']], fixed); rng_hi = py_up([e[1] for e in spec['grid']], fixed)
         outb = [c for c in calls if not in_box(c, rng_lo, rng_hi)]
     else:
         outb = [c for c in calls if not in_box(c, lower, upper)]
@@ -505,6 +560,20 @@ def run_optim(chk, ctx, spec, sample=True, report=None, keep_defaults=False):
             best = max(pb.ll(c, multinom) for c in calls)
             if not (llr >= best - VTOL * abs(best)):
                 bad('grid_best', 'a grid point with ll %r was evaluated, the returned point has %r' % (best, llr))
+    if w == 'optimize_grid':
+        # the points searched are the documented ones: the product of the axes, with the fixed values folded in, and the best of THOSE comes back
+        want = sorted(set(tuple(py_up(list(pt), fixed)) for pt in itertools.product(*[grid_axis(e) for e in spec['grid']])))
+        got = sorted(set(tuple(c) for c in calls))
+        if len(want) != len(got) or not all(rel_ok(a, b, 1e-12) or np.allclose(a, b, rtol=1e-12, atol=1e-13) for a, b in zip(want, got)):
+            miss = next((a for a, b in zip(want, got) if not np.allclose(a, b, rtol=1e-12, atol=1e-13)), want[:1])
+            bad('grid_points', 'the model was evaluated at %d distinct points (first %r), the grid %r with fixed_params %r has %d (e.g. %r)'
+                % (len(got), got[:1], spec['grid'], fixed, len(want), miss))
+        elif np.all(np.isfinite(xret)) and len(xret) == k:
+            lls = [pb.ll(list(c), multinom) for c in want]
+            if all(math.isfinite(v) for v in lls):
+                top = max(lls)
+                if not (pb.ll(xret, multinom) >= top - VTOL * abs(top)):
+                    bad('grid_best', 'the best grid point %r has ll %r, the returned point %r has %r' % (list(want[int(np.argmax(lls))]), top, xret.tolist(), pb.ll(xret, multinom)))
     chk.stat('evaluations_recorded', len(calls))
     # ---------------------------------------------------------------- K: Lean replay of the trace
     k_trace(chk, ctx, spec, pb, rec, calls, xret, fret, verdict, scale)
@@ -551,7 +620,7 @@ def same_pts(a, b):
     return np.array_equal(np.asarray(a), np.asarray(b))
 
 def describe(spec):
-    d = {k: spec.get(k) for k in ('p0', 'pts', 'lower', 'upper', 'fixed', 'multinom', 'll_scale', 'maxiter', 'log_opt', 'algorithm', 'full_output', 'grid', 'func_args', 'func_kwargs')
+    d = {k: spec.get(k) for k in ('p0', 'pts', 'lower', 'upper', 'fixed', 'types', 'multinom', 'll_scale', 'maxiter', 'log_opt', 'algorithm', 'full_output', 'grid', 'func_args', 'func_kwargs')
          if spec.get(k) is not None}
     return ', '.join('%s=%r' % kv for kv in d.items())
 
@@ -609,7 +678,7 @@ def k_trace(chk, ctx, spec, pb, rec, calls, xret, fret, verdict, scale):
        or not all(math.isfinite(v) for v in b['values']):
         chk.k_skipped += 1; chk.stat('trace_nonfinite_skipped'); return
     # function tables: exactly the floats numpy computes for these scalars
-    p0 = spec.get('p0') or py_up([a for a, _, _ in spec['grid']], fx_num(spec['fixed']))
+    p0 = spec.get('p0') or py_up([e[0] for e in spec['grid']], fx_num(spec['fixed']))
     expt, logt = {}, {}
     with np.errstate(all='ignore'):
         for v in list(p0) + [x for bb in (spec.get('lower'), spec.get('upper')) if bb for x in bb if x is not None]:
@@ -623,7 +692,14 @@ def k_trace(chk, ctx, spec, pb, rec, calls, xret, fret, verdict, scale):
         chk.k_skipped += 1; chk.stat('trace_exp_overflow_skipped'); return      # the optimiser stepped to exp(x) = inf
     head = '%s %s %s %s %s %s %s %s %s' % (tn, tok_vec(p0), tok_bounds(spec.get('lower')), tok_bounds(spec.get('upper')),
                                            tok_bounds(fx_num(spec['fixed'])), rat(scale), tok_vecs(b['queries']), tok_vec(xraw), rat(fraw))
-    tail = '%s %s %s %s' % (tok_tab(expt), tok_tab(logt), rat(Fraction(1, 10 ** 9)), rat(Fraction(1, 10 ** 9)))
+    qkind = 'int' if b.get('kinds') == {'int'} else 'float'            # element type of the optimiser's queries, and of its answer
+    try:
+        akind = np_kind(out if (b['optimizer'] == 'scipy.optimize.brute' and not spec['full_output']) else out[0])
+    except Exception:
+        akind = 'float'
+    if qkind == 'int': chk.stat('traces_with_integer_queries')
+    pkind = np_kind(typed(spec['p0'], types_of(spec).get('p0'))) if spec.get('p0') is not None else 'float'
+    tail = '%s %s %s %s %s %s %s' % (tok_tab(expt), tok_tab(logt), rat(Fraction(1, 10 ** 9)), rat(Fraction(1, 10 ** 9)), pkind, qkind, akind)
     ans = driver.ask('c12.points %s = - %s' % (head, tail))
     if not ans.startswith('ok '):
         chk.k_bad(op, spec, 'ran without error', ans, None); return
@@ -684,7 +760,7 @@ def k_trace(chk, ctx, spec, pb, rec, calls, xret, fret, verdict, scale):
     if fret is None: mf.discard('ll_result_is_reported')
     if (m_anse == '1') != answer_evaluated(rec, spec):
         chk.k_bad('clauses:' + tn, spec, 'answer evaluated: %r' % answer_evaluated(rec, spec), 'answer evaluated: ' + m_anse, None); return
-    lf = set(verdict) - {'grid_best', 'reported_not_finite'}
+    lf = set(verdict) - {'grid_best', 'reported_not_finite', 'grid_points'}
     if mf == lf: chk.k_ok('clauses:' + tn)
     else: chk.k_bad('clauses:' + tn, spec, sorted(lf), sorted(mf), None)
 
@@ -759,9 +835,26 @@ def gen_spec(rng, wrapper, tier, **force):
         if rng.random() < 0.2: lo = [0.0 if rng.random() < 0.6 else v for v in lo]
     else:
         lo = [round(t - float(rng.uniform(1.5, 4)), 4) for t in true]; hi = [round(t + float(rng.uniform(1.5, 4)), 4) for t in true]
-    p0 = [round(float(rng.uniform(l + 0.15 * (h - l), h - 0.15 * (h - l))), 4) for l, h in zip(lo, hi)]
-    if positive: p0 = [max(v, 0.05) for v in p0]
-    # fixed subset (never all)
+    # TIGHT boxes: bounds that are ACTIVE (the optimum lies beyond the upper / below the lower bound, so the optimiser ends on the bound) or a
+    # narrow box around the optimum, with bounds below 1, around 1 and above e: there the natural-space box [lb, ub] and the log-space box
+    # [log lb, log ub] are visibly different sets, and anything done to a result / a query in the wrong one of the two spaces shows
+    tight = bool(force.get('tight', rng.random() < 0.2))
+    U = lambda a, b: float(rng.uniform(a, b))
+    if tight:
+        for i, t in enumerate(true):
+            r = rng.random()
+            if positive:
+                if r < 0.4: hi[i] = round(t * U(0.55, 0.95), 5); lo[i] = round(hi[i] / U(1.5, 6), 5)
+                elif r < 0.65: lo[i] = round(t * U(1.05, 1.8), 5); hi[i] = round(lo[i] * U(1.5, 6), 5)
+                elif r < 0.85: lo[i] = round(t * U(0.9, 0.99), 5); hi[i] = round(t * U(1.01, 1.1), 5)
+            else:
+                if r < 0.4: hi[i] = round(t - U(0.05, 0.6), 5); lo[i] = round(hi[i] - U(0.5, 3), 5)
+                elif r < 0.65: lo[i] = round(t + U(0.05, 0.6), 5); hi[i] = round(lo[i] + U(0.5, 3), 5)
+                elif r < 0.85: lo[i] = round(t - U(0.01, 0.1), 5); hi[i] = round(t + U(0.01, 0.1), 5)
+    nd = 6 if tight else 4
+    p0 = [round(float(rng.uniform(l + 0.15 * (h - l), h - 0.15 * (h - l))), nd) for l, h in zip(lo, hi)]
+    if positive: p0 = [max(v, 0.05) if l < 0.05 else v for v, l in zip(p0, lo)]
+    # fixed subset (never all); a fixed value lies inside its box (the documentation: "optimization will fail" otherwise)
     fixed = None
     if k >= 2 and rng.random() < force.get('pfixed', 0.5):
         nfx = int(rng.integers(1, k))
@@ -769,9 +862,9 @@ def gen_spec(rng, wrapper, tier, **force):
         fixed = []
         for i in range(k):
             if i not in idx: fixed.append(None)
-            elif rng.random() < 0.5: fixed.append(true[i])
-            else: fixed.append(round(float(rng.uniform(lo[i] + 0.2 * (hi[i] - lo[i]), hi[i] - 0.2 * (hi[i] - lo[i]))), 4))
-        if positive: fixed = [None if f is None else max(f, 0.05) for f in fixed]
+            elif rng.random() < 0.5 and lo[i] <= true[i] <= hi[i]: fixed.append(true[i])
+            else: fixed.append(round(float(rng.uniform(lo[i] + 0.2 * (hi[i] - lo[i]), hi[i] - 0.2 * (hi[i] - lo[i]))), nd))
+        if positive: fixed = [None if f is None else (max(f, 0.05) if lo[i] < 0.05 else f) for i, f in enumerate(fixed)]
     elif k == 1 and rng.random() < 0.15:
         fixed = [None]
     # parameters fixed at exactly ZERO (misidentification, migration, inbreeding ... switched off), in any spelling of zero
@@ -779,7 +872,8 @@ def gen_spec(rng, wrapper, tier, **force):
         fixed = [None] * k if fixed is None else fixed
         tags = force.get('zero_tags') or [str(t) for t in rng.permutation(ZERO_TAGS)]
         for j, i in enumerate(force['zero_at']): fixed[i] = tags[j % len(tags)]
-        for i in force.get('fix_also', ()): fixed[i] = max(true[i], 0.05) if positive else true[i]
+        for i in force.get('fix_also', ()):
+            fixed[i] = (max(true[i], 0.05) if positive else true[i]) if lo[i] <= true[i] <= hi[i] else round(0.5 * (lo[i] + hi[i]), 6)
     elif fixed is not None and any(f is not None for f in fixed) and rng.random() < 0.3:
         cands = [i for i, f in enumerate(fixed) if f is not None]
         fixed[int(rng.choice(cands))] = str(rng.choice(ZERO_TAGS))
@@ -787,6 +881,39 @@ def gen_spec(rng, wrapper, tier, **force):
         if isinstance(f, str):                       # the box of that entry must contain 0 (the bounds apply to fixed values too)
             lo[i] = 0.0 if positive else min(lo[i], -0.5)
             hi[i] = max(hi[i], 0.5)
+    # HOW the caller spells the vectors: integer-valued starts in integer types (lists / tuples / arrays of int, numpy integers), tuples,
+    # arrays and numpy scalars of floats, integer-typed bounds, fixed_params as a tuple, fixed values as numpy scalars / Python ints
+    types = None
+    mode = force.get('types')
+    if mode is None:
+        r = rng.random()
+        mode = 'int' if r < 0.15 else ('float' if r < 0.35 else 'plain')
+    if mode != 'plain':
+        types = {}
+        if mode == 'int':
+            # an integer-valued start strictly inside the box (the box is widened around the integer where it holds none)
+            for i in range(k):
+                n = max(1, int(round(true[i]))) if positive else int(round(true[i]))
+                cands = [m for m in range(int(math.floor(lo[i])) + 1, int(math.ceil(hi[i]))) if lo[i] < m < hi[i] and (m >= 1 or not positive)]
+                if cands: n = int(rng.choice(cands))
+                else: lo[i] = round(min(lo[i], n - U(0.3, 0.9)), 4); hi[i] = round(max(hi[i], n + U(0.3, 0.9)), 4)
+                p0[i] = float(n)
+            types['p0'] = str(rng.choice(INT_FLAVOURS))
+            if rng.random() < 0.5:                   # integer bounds in integer types as well (floor / ceil only widen the box)
+                lo = [float(math.floor(v)) for v in lo]; hi = [float(math.ceil(v)) for v in hi]
+                types['lower'] = str(rng.choice(INT_FLAVOURS)); types['upper'] = str(rng.choice(INT_FLAVOURS))
+        else:
+            types['p0'] = str(rng.choice(FLOAT_FLAVOURS[1:]))
+        for b_ in ('lower', 'upper'):
+            if b_ not in types and rng.random() < 0.6: types[b_] = str(rng.choice(FLOAT_FLAVOURS[1:]))
+        if fixed is not None:
+            if rng.random() < 0.3: types['fixed'] = 'tuple'
+            for i, f in enumerate(fixed):
+                if f is None or isinstance(f, str): continue
+                r = rng.random()
+                ints_in = [m for m in range(int(math.floor(lo[i])) + 1, int(math.ceil(hi[i]))) if lo[i] < m < hi[i] and (m >= 1 or not positive)]
+                if r < 0.25 and ints_in: fixed[i] = '%s:%d' % (str(rng.choice(['int', 'npint'])), int(rng.choice(ints_in)))
+                elif r < 0.5: fixed[i] = 'npf:%r' % float(f)
     # shape of the bounds
     r = rng.random()
     pb_ = force.get('bounds')
@@ -801,6 +928,8 @@ def gen_spec(rng, wrapper, tier, **force):
     elif pb_ == 'none': lower = upper = None
     spec = dict(case='optim', wrapper=wrapper, toy=toy, p0=p0, lower=lower, upper=upper, fixed=fixed,
                 multinom=bool(force.get('multinom', rng.random() < 0.6)), full_output=bool(force.get('full_output', rng.random() < 0.8)))
+    if types: spec['types'] = types
+    if tight: spec['tight'] = True
     spec['ll_scale'] = float(rng.choice([1, 1, 10, 0.5])) if wrapper in ('optimize', 'optimize_log', 'optimize_lbfgsb', 'optimize_log_lbfgsb', 'optimize_cons') else 1
     quick = tier == 'quick'
     if wrapper == 'opt':
@@ -839,9 +968,27 @@ def gen_grid_spec(rng, tier, **force):
         fixed[int(rng.choice([i for i, f in enumerate(fixed) if f is not None]))] = str(rng.choice(ZERO_TAGS))
     free = [i for i in range(k) if fixed is None or fixed[i] is None]
     pts = 3 if len(free) >= 3 else int(rng.integers(3, 7))
-    grid = [[round(true[i] - abs(true[i]) * 0.5 - 0.1, 4), round(true[i] + abs(true[i]) * 0.5 + 0.1, 4), pts] for i in free]
+    # how the grid is written: `a:b:mj` (m points), `a:b:step` with floats, or with INTEGERS only (`1:6:1`: the objective then receives
+    # integer arrays, next to fixed values that are not integers), or a mixture of the forms over the axes
+    gk = force.get('grid_kind') or str(rng.choice(['count', 'int', 'float_step', 'mixed'], p=[0.45, 0.3, 0.15, 0.1]))
+    positive = toy['kind'] == 'bump'
+    grid = []
+    for i in free:
+        kind = gk if gk != 'mixed' else str(rng.choice(['count', 'int', 'float_step']))
+        if kind == 'count':
+            grid.append([round(true[i] - abs(true[i]) * 0.5 - 0.1, 4), round(true[i] + abs(true[i]) * 0.5 + 0.1, 4), pts])
+        elif kind == 'int':
+            step = int(rng.choice([1, 1, 2]))
+            a = int(math.floor(true[i])) - step * (pts // 2)
+            if positive: a = max(a, 0)
+            grid.append([a, a + step * pts - int(rng.integers(0, step)), step, 'step'])
+        else:
+            a = round(true[i] - abs(true[i]) * 0.5 - 0.1, 4); b = round(true[i] + abs(true[i]) * 0.5 + 0.1, 4)
+            grid.append([a, b, round((b - a) / (pts - 0.5), 5), 'step'])
     spec = dict(case='optim', wrapper='optimize_grid', toy=toy, p0=None, lower=None, upper=None, fixed=fixed, grid=grid,
                 multinom=bool(rng.random() < 0.6), full_output=bool(force.get('full_output', rng.random() < 0.6)), ll_scale=1, maxiter=None)
+    if rng.random() < 0.2: spec['grid_container'] = 'list'
+    if fixed is not None and rng.random() < 0.3: spec['types'] = {'fixed': 'tuple'}
     spec['pts'] = gen_pts_seq(rng, 1)[0]
     spec.update(gen_extras(rng))
     return spec
@@ -851,53 +998,62 @@ def case_project(chk, ctx, spec):
     dadi = ctx['dadi']; driver = ctx['driver']; I = dadi.Inference
     free, full = spec['free'], spec['full']
     fixed = fx_num(spec['fixed'])               # the values, as numbers (oracle, wire)
-    fixed_arg = lambda: fx_real(spec['fixed'])  # what the caller passes (0, 0.0, -0.0, False, numpy zeros, ...)
+    def fixed_arg():                            # what the caller passes (0, 0.0, -0.0, False, numpy zeros, Python / numpy ints, a tuple ...)
+        fx = fx_real(spec['fixed'])
+        return tuple(fx) if (fx is not None and spec.get('fixed_type') == 'tuple') else fx
     zero = has_zero_fixed(spec['fixed'])
+    free_type, full_type = spec.get('free_type') or 'array', spec.get('full_type') or 'list'
+    free_arg = lambda: typed(free, free_type)   # the reduced vector in the caller's spelling (list / tuple / array / numpy scalars, int or float)
     chk.l3(('project', None if fixed is None else tuple(f is None for f in fixed), len(free),
-            tuple(sorted(set(f for f in (spec['fixed'] or []) if isinstance(f, str))))))
-    chk.stat('project_cases')
+            tuple(sorted(set(f.partition(':')[0] for f in (spec['fixed'] or []) if isinstance(f, str)))), free_type, full_type, spec.get('fixed_type')))
+    chk.stat('project_cases'); chk.stat('project_free_spelled:' + free_type); chk.stat('project_full_spelled:' + full_type)
     if zero: chk.stat('project_cases_with_a_zero_fixed_value')
+    if fixed is not None and np_kind(free_arg()) == 'int' and any(f is not None and not float(f).is_integer() for f in fixed):
+        chk.stat('project_cases_integer_vector_with_non_integer_fixed_value')
     tag = ':zero_fixed' if zero else ''
-    # ---- L3: mutually inverse, fixed entries restored, lengths
+    how = lambda o: '%s(%r)' % (type(o).__name__ + (':' + str(o.dtype) if isinstance(o, np.ndarray) else ''), o.tolist() if isinstance(o, np.ndarray) else o)
+    # ---- L3: mutually inverse, fixed entries restored, lengths.  The OUTPUT of one projection is fed to the other as it is (same object,
+    #      same element type), the way the wrappers chain them
     def call(f, *a):
         try:
-            r = f(*a); return ('ok', np.asarray(r, dtype=float).ravel().tolist())
+            r = f(*a); return ('ok', np.asarray(r, dtype=float).ravel().tolist(), r)
         except Exception as e:
-            return ('exc', type(e).__name__)
-    up = call(I._project_params_up, np.array(free, dtype=float), fixed_arg())
+            return ('exc', type(e).__name__, None)
+    up = call(I._project_params_up, free_arg(), fixed_arg())
     nfree = len(free) if fixed is None else sum(f is None for f in fixed)
     if len(free) == nfree:
         if up[0] != 'ok':
-            chk.fail('_project_params_up:raises:' + up[1] + tag, '_project_params_up(%r, %r) raises %s' % (free, spec['fixed'], up[1]), spec)
+            chk.fail('_project_params_up:raises:' + up[1] + tag, '_project_params_up(%s, %r) raises %s' % (how(free_arg()), spec['fixed'], up[1]), spec)
         else:
             want_up = py_up(free, fixed)
             if len(up[1]) != len(want_up):
-                chk.fail('_project_params_up:length' + tag, 'up(%r, %r) has %d entries, fixed_params has %d' % (free, spec['fixed'], len(up[1]), len(want_up)), spec)
+                chk.fail('_project_params_up:length' + tag, 'up(%s, %r) has %d entries, fixed_params has %d' % (how(free_arg()), spec['fixed'], len(up[1]), len(want_up)), spec)
             elif fixed is not None and not all(f is None or u == f for u, f in zip(up[1], fixed)):
-                chk.fail('_project_params_up:fixed' + tag, 'up(%r, %r) = %r does not carry the fixed values' % (free, spec['fixed'], up[1]), spec)
+                chk.fail('_project_params_up:fixed' + tag, 'up(%s, %r) = %r does not carry the fixed values' % (how(free_arg()), spec['fixed'], up[1]), spec)
             elif up[1] != want_up:
-                chk.fail('_project_params_up:free' + tag, 'up(%r, %r) = %r, expected %r' % (free, spec['fixed'], up[1], want_up), spec)
-            dn = call(I._project_params_down, np.array(up[1]), fixed_arg())
-            if dn != ('ok', [float(v) for v in free]):
-                chk.fail('_project_params:down_up' + tag, 'down(up(%r, %r)) = %r' % (free, spec['fixed'], dn), spec)
+                chk.fail('_project_params_up:free' + tag, 'up(%s, %r) = %r, expected %r' % (how(free_arg()), spec['fixed'], up[1], want_up), spec)
+            dn = call(I._project_params_down, up[2], fixed_arg())
+            if dn[:2] != ('ok', [float(v) for v in free]):
+                chk.fail('_project_params:down_up' + tag, 'down(up(%s, %r)) = %r' % (how(free_arg()), spec['fixed'], dn[:2]), spec)
     if fixed is None or len(full) == len(fixed):
-        dn = call(I._project_params_down, list(full), fixed_arg())
+        full_arg = typed(full, full_type)
+        dn = call(I._project_params_down, full_arg, fixed_arg())
         want_dn = [float(v) for v in full] if fixed is None else [float(v) for v, f in zip(full, fixed) if f is None]
         if dn[0] != 'ok':
-            chk.fail('_project_params_down:raises:' + dn[1] + tag, '_project_params_down(%r, %r) raises %s' % (full, spec['fixed'], dn[1]), spec)
+            chk.fail('_project_params_down:raises:' + dn[1] + tag, '_project_params_down(%s, %r) raises %s' % (how(full_arg), spec['fixed'], dn[1]), spec)
         else:
             if dn[1] != want_dn:
-                chk.fail('_project_params_down:free' + tag, 'down(%r, %r) = %r, expected the %d free entries %r' % (full, spec['fixed'], dn[1], len(want_dn), want_dn), spec)
-            u2 = call(I._project_params_up, np.array(dn[1]), fixed_arg())
+                chk.fail('_project_params_down:free' + tag, 'down(%s, %r) = %r, expected the %d free entries %r' % (how(full_arg), spec['fixed'], dn[1], len(want_dn), want_dn), spec)
+            u2 = call(I._project_params_up, dn[2], fixed_arg())
             want = [float(v) for v in full] if fixed is None else [float(v) if f is None else float(f) for v, f in zip(full, fixed)]
-            if u2 != ('ok', want):
-                chk.fail('_project_params:up_down' + tag, 'up(down(%r, %r)) = %r, expected %r' % (full, spec['fixed'], u2, want), spec)
+            if u2[:2] != ('ok', want):
+                chk.fail('_project_params:up_down' + tag, 'up(down(%s, %r)) = %r, expected %r (down gave %s)' % (how(full_arg), spec['fixed'], u2[:2], want, how(dn[2])), spec)
     # ---- K
     if driver is None or not driver.ok(): return
-    out = driver.ask('c12.up %s %s' % (tok_vec(free), tok_bounds(fixed)))
+    out = driver.ask('c12.up %s %s %s' % (tok_vec(free), tok_bounds(fixed), np_kind(free_arg())))
     if up[0] == 'ok' and out.startswith('ok ') and [float(x) for x in parse_list(out[3:])] == up[1]: chk.k_ok('project_up')
     elif up[0] == 'exc' and out == 'err ' + up[1]: chk.k_ok('project_up'); chk.stat('error_kind:' + up[1])
-    else: chk.k_bad('project_up', spec, up, out, None)
+    else: chk.k_bad('project_up', spec, up[:2], out, None)
     # down on a list with None entries (the bound lists are projected too)
     mixed = spec.get('mixed', full)
     try:
@@ -926,7 +1082,33 @@ def gen_project(rng):
     elif r < 0.14: free = free + [1.5]                              # too long: extra entries ignored
     if rng.random() < 0.08: full = full + [0.25]                    # wrong length: ValueError
     mixed = [None if rng.random() < 0.3 else v for v in full]
-    return dict(case='project', fixed=fixed, free=free, full=full, mixed=mixed)
+    spec = dict(case='project', fixed=fixed, free=free, full=full, mixed=mixed)
+    # the spelling of the vectors: 45 % as before (float array / float list); otherwise integer-valued free entries in an integer type
+    # (next to fixed values that are mostly NOT integers), float tuples / arrays / numpy scalars / float32, a bare scalar for a single
+    # free parameter, fixed values as Python / numpy ints and numpy floats, fixed_params as a tuple
+    r = rng.random()
+    if r < 0.3:
+        spec['free'] = [float(int(rng.integers(-6, 7))) for _ in free]
+        spec['free_type'] = str(rng.choice(INT_FLAVOURS + (['scalar_int', 'scalar_npint'] if len(free) == 1 else [])))
+        # the full vector: integers at the free positions; at the fixed positions its own fixed value (a vector "carrying" them: [3, 0.5, 2]) or junk
+        carry = rng.random() < 0.6
+        fxn = fx_num(fixed)
+        spec['full'] = [float(int(rng.integers(-6, 7))) if (fxn is None or i >= len(fxn) or fxn[i] is None) else (fxn[i] if carry else float(int(rng.integers(-6, 7))))
+                        for i in range(len(full))]
+        spec['full_type'] = str(rng.choice(INT_FLAVOURS))
+    elif r < 0.55:
+        fl = str(rng.choice(FLOAT_FLAVOURS + ['float32_array'] + (['scalar_float', 'scalar_npf'] if len(free) == 1 else [])))
+        if fl == 'float32_array': spec['free'] = [float(np.float32(v)) for v in free]
+        spec['free_type'] = fl
+        spec['full_type'] = str(rng.choice(FLOAT_FLAVOURS))
+    if fixed is not None and rng.random() < 0.35:
+        for i, f in enumerate(fixed):
+            if f is None or isinstance(f, str): continue
+            q = rng.random()
+            if q < 0.3: fixed[i] = '%s:%d' % (str(rng.choice(['int', 'npint'])), int(rng.integers(-4, 5)))
+            elif q < 0.6: fixed[i] = '%s:%r' % (str(rng.choice(['npf', 'np0d', 'f32'])), float(np.float32(f)))
+        if rng.random() < 0.4: spec['fixed_type'] = 'tuple'
+    return spec
 
 # =============================================================================================== direct K / L3: _object_func
 def case_objfunc(chk, ctx, spec):
@@ -934,6 +1116,8 @@ def case_objfunc(chk, ctx, spec):
     params, lower, upper, scale, multinom = spec['params'], spec['lower'], spec['upper'], spec['ll_scale'], spec['multinom']
     fixed = fx_num(spec['fixed'])
     pts_seq = spec.get('pts_seq') or [None]
+    ty = types_of(spec)
+    for n, f in ty.items(): chk.stat('objfunc_spelled:%s:%s' % (n, f))
     kwargs_obj = None if spec.get('func_kwargs') is None else dict(spec['func_kwargs'])     # ONE caller-owned dict for all calls of the sequence
     args_obj = None if spec.get('func_args') is None else list(spec['func_args'])
     watched_functions(dadi, 'optimize')
@@ -947,10 +1131,13 @@ def case_objfunc(chk, ctx, spec):
         try:
             with np.errstate(all='ignore'):
                 if spec.get('log'):
-                    v = I._object_func_log(np.log(np.array(params)), pb.data, pb.model_func, pts, lower_bound=lower, upper_bound=upper, multinom=multinom,
+                    v = I._object_func_log(np.log(np.array(params)), pb.data, pb.model_func, pts, lower_bound=typed(lower, ty.get('lower')),
+                                           upper_bound=typed(upper, ty.get('upper')), multinom=multinom,
                                            fixed_params=fx_real(spec['fixed']), ll_scale=scale, **extra)
                 else:
-                    v = I._object_func(np.array(params, dtype=float), pb.data, pb.model_func, pts, lower_bound=lower, upper_bound=upper, multinom=multinom,
+                    # the parameter vector as an optimiser / grid search / user hands it over: float array, or integer array, list, tuple ...
+                    v = I._object_func(typed(params, ty.get('params') or 'array'), pb.data, pb.model_func, pts, lower_bound=typed(lower, ty.get('lower')),
+                                       upper_bound=typed(upper, ty.get('upper')), multinom=multinom,
                                        fixed_params=fx_real(spec['fixed']), ll_scale=scale, **extra)
             impl = ('ok', float(v), [c.tolist() for c in pb.calls])
         except Exception as e:
@@ -971,7 +1158,8 @@ def case_objfunc(chk, ctx, spec):
         if impl[0] == 'ok' and len(pts_seq) > 1 and pts is not pts_seq[-1]:
             continue
     pu = py_up(np.exp(np.log(np.array(params))) if spec.get('log') else params, fixed) if (fixed is None or sum(f is None for f in fixed) <= len(params)) else None
-    chk.l3(('objfunc', lower is None, upper is None, fixed is None, multinom, scale != 1, bool(spec.get('log')), has_zero_fixed(spec['fixed'])))
+    chk.l3(('objfunc', lower is None, upper is None, fixed is None, multinom, scale != 1, bool(spec.get('log')), has_zero_fixed(spec['fixed']),
+            tuple(sorted(ty.items()))))
     if has_zero_fixed(spec['fixed']): chk.stat('objfunc_cases_with_a_zero_fixed_value')
     chk.stat('objfunc_cases')
     # ---- L3: outside the bounds the model is not called and the sentinel comes back; inside, -ll/ll_scale at the folded-in point
@@ -1000,8 +1188,8 @@ def case_objfunc(chk, ctx, spec):
     keys, vals = [], []
     if pu is not None:
         ll = pb.ll(pu, multinom); keys = [pu]; vals = ['nan' if not math.isfinite(ll) else rat(ll)]
-    out = driver.ask('c12.obj %s %s %s %s %s %s %s' % (tok_vec(params), tok_bounds(lower), tok_bounds(upper), tok_bounds(fixed), rat(scale),
-                                                      tok_vecs(keys), ','.join(vals) if vals else '-'))
+    out = driver.ask('c12.obj %s %s %s %s %s %s %s %s' % (tok_vec(params), tok_bounds(lower), tok_bounds(upper), tok_bounds(fixed), rat(scale),
+                                                         tok_vecs(keys), ','.join(vals) if vals else '-', np_kind(typed(params, ty.get('params') or 'array'))))
     if impl[0] == 'exc':
         if out == 'err ' + impl[1]: chk.k_ok('object_func'); chk.stat('error_kind:' + impl[1])
         else: chk.k_bad('object_func', spec, impl, out, None)
@@ -1048,6 +1236,16 @@ def gen_objfunc(rng):
                 multinom=multinom, log=log)
     spec['pts_seq'] = gen_pts_seq(rng, int(rng.integers(1, 4)))
     spec.update(gen_extras(rng))
+    if not log:
+        r = rng.random()
+        if r < 0.25:        # integer parameter vectors (what a grid written with integers hands over); inside or outside the box, as it comes
+            spec['params'] = [float(int(round(v))) for v in params]
+            spec['types'] = {'params': str(rng.choice(INT_FLAVOURS))}
+        elif r < 0.45:
+            spec['types'] = {'params': str(rng.choice(FLOAT_FLAVOURS))}
+        if rng.random() < 0.3:
+            spec.setdefault('types', {})
+            for b_ in ('lower', 'upper'): spec['types'][b_] = str(rng.choice(FLOAT_FLAVOURS[1:]))
     return spec
 
 # =============================================================================================== perturb_params
@@ -1257,7 +1455,25 @@ def run(chk, ctx):
             for lo_ in ((False, True) if w == 'opt' else (False,)):
                 specs.append(gen_spec(rng, w, tier, pfixed=0.0, bounds=('partial' if j == 3 else 'full'), algorithm='LN_BOBYQA',
                                       log_opt=lo_, **zc))
+    # ---- spelling of the arguments: through EVERY wrapper an integer-valued start in an integer type (list / tuple / array of int, numpy
+    #      integers; half of them with integer-typed bounds) next to non-integer fixed values, and float tuples / arrays / numpy scalars
+    # ---- tight boxes: active upper / lower bounds and narrow boxes, below 1, around 1 and above e (natural-space box != log-space box)
+    for w in names:
+        if w == 'optimize_grid' or w.endswith('_resid'): continue
+        for lo_ in ((False, True) if w == 'opt' else (False,)):
+            common_ = dict(algorithm='LN_BOBYQA', log_opt=lo_)
+            specs.append(gen_spec(rng, w, tier, types='int', k=3, pfixed=1.0, bounds='full', tight=False, **common_))
+            specs.append(gen_spec(rng, w, tier, types='int', k=2, pfixed=0.0, bounds='partial', tight=False, **common_))
+            specs.append(gen_spec(rng, w, tier, types='float', k=3, pfixed=1.0, bounds='full', **common_))
+            specs.append(gen_spec(rng, w, tier, types='plain', k=2, pfixed=0.0, bounds='full', tight=True, **common_))
+            specs.append(gen_spec(rng, w, tier, types='plain', k=3, pfixed=1.0, bounds='full', tight=True, **common_))
+            specs.append(gen_spec(rng, w, tier, k=1, pfixed=0.0, bounds='full', tight=True, **common_))
     if 'optimize_grid' in names:
+        # the grid written in every way (`a:b:mj`, float step, INTEGERS only, mixed), with and without fixed (non-integer) values
+        for gk in ('int', 'float_step', 'mixed', 'count'):
+            specs.append(gen_grid_spec(rng, tier, k=2, nfree=1, grid_kind=gk, full_output=False))
+            specs.append(gen_grid_spec(rng, tier, k=3, nfree=2, grid_kind=gk, full_output=True))
+            specs.append(gen_grid_spec(rng, tier, k=2, nfree=2, grid_kind=gk, full_output=(gk == 'int')))
         specs.append(gen_grid_spec(rng, tier, nfree=1, full_output=True))
         specs.append(gen_grid_spec(rng, tier, nfree=1, full_output=False))
         specs.append(gen_grid_spec(rng, tier, nfree=2, full_output=True))
@@ -1287,6 +1503,27 @@ def run(chk, ctx):
     run_case(chk, ctx, dict(case='project', fixed=['int0', None, 'float0', 'negzero', 'false', None, 'np0', 'npint0', 'np0d'],
                             free=[7.0, -3.0], full=[1.0, 2.0, 3.0, 4.0, 5.0, 6.0, 7.0, 8.0, 9.0], mixed=[None] * 9))
     run_case(chk, ctx, dict(case='project', fixed=['float0', 'float0', 'float0', None], free=[2.0], full=[9.0, 8.0, 7.0, 2.0], mixed=[1.0, None, 1.0, None]))
+    # every spelling of the reduced / full vector x a non-integer fixed value first / middle / last; integer-valued free entries in integer
+    # types; a bare scalar for a single free parameter; fixed values as Python / numpy integers
+    for fl in FLOAT_FLAVOURS + INT_FLAVOURS + ['float32_array']:
+        isint = fl in INT_FLAVOURS
+        for pos in range(3):
+            fx = [None, None, None]; fx[pos] = 0.25 + pos
+            fr = [3.0, -2.0] if isint else [1.25, -2.5]
+            fu = [float(v) for v in (fr[:pos] + [fx[pos]] + fr[pos:])]
+            run_case(chk, ctx, dict(case='project', fixed=fx, free=fr, full=fu, mixed=[0.5, None, -1.0], free_type=fl,
+                                    full_type=(fl if fl != 'float32_array' else 'array'), fixed_type=('tuple' if pos == 1 else None)))
+        run_case(chk, ctx, dict(case='project', fixed=[0.5, None, 'npf:0.1', 'int:2', None, 'npint:-3', 1.75], free=([4.0, 7.0] if isint else [4.5, 0.125]),
+                                full=([0.5, 4.0, 0.1, 2.0, 7.0, -3.0, 1.75] if isint else [9.0, 4.5, 9.0, 9.0, 0.125, 9.0, 9.0]), mixed=[None] * 7,
+                                free_type=fl, full_type=(fl if fl != 'float32_array' else 'tuple')))
+    for fl in SCALAR_FLAVOURS:
+        for pos in range(3):
+            fx = [0.3, 2.5, -1.75]; fx[pos] = None
+            v = 4.0 if 'int' in fl else 0.625
+            run_case(chk, ctx, dict(case='project', fixed=fx, free=[v], full=[v if i == pos else fx[i] for i in range(3)], mixed=[None, 1.0, None], free_type=fl,
+                                    full_type=('int_list' if 'int' in fl else 'list')))
+        run_case(chk, ctx, dict(case='project', fixed=[None], free=[5.0], full=[5.0], mixed=[None], free_type=fl, full_type='list'))
+        run_case(chk, ctx, dict(case='project', fixed=None, free=[5.0], full=[5.0], mixed=[None], free_type=fl, full_type='list'))
     for _ in range(60 if quick else 4000):
         run_case(chk, ctx, gen_objfunc(rng))
     for mode in ('pos', 'zero', 'neg', 'none_entries', 'no_bounds', 'narrow', 'mixed'):
